@@ -10,16 +10,16 @@ TRUSTED_BASE = [
 _INSTR_TRUSTED = ["modelled, not verified: go/parser positions and go/printer re-formatting (A1, A2), astutil import editing (A3); internal/absast extractor (never calls goat functions) is trusted to report node kinds, Walk order and line numbers faithfully"]
 
 PROPS = {
-    "C01": dict(lean=["GoatSpec.Properties.C01"], streams=["marks-stdlib", "marks-gen"], e2e=[], trusted=_INSTR_TRUSTED,
+    "C01": dict(lean=["GoatSpec.Properties.C01"], streams=["marks-stdlib", "marks-gen"], e2e=["track"], trusted=_INSTR_TRUSTED,
                 assumptions=["A1: inserting the 4-line block at a statement boundary of a function body, plus one import, keeps the package compiling"]),
-    "C02": dict(lean=["GoatSpec.Properties.C02"], streams=["marks-stdlib", "marks-gen"], e2e=[], trusted=_INSTR_TRUSTED,
+    "C02": dict(lean=["GoatSpec.Properties.C02"], streams=["marks-stdlib", "marks-gen"], e2e=["track"], trusted=_INSTR_TRUSTED,
                 assumptions=["A2: go/printer∘go/parser preserves syntax tree and comments", "A3: astutil.AddNamedImport only edits import declarations"]),
     "C03": dict(lean=["GoatSpec.Properties.C03"], streams=["marks-stdlib", "marks-gen"], e2e=[], trusted=_INSTR_TRUSTED, assumptions=[]),
     "C09": dict(lean=["GoatSpec.Properties.C09"], streams=["marks-stdlib", "marks-gen"], e2e=[], trusted=_INSTR_TRUSTED, assumptions=[]),
     "C06": dict(
         lean=["GoatSpec.Properties.C06"],
         streams=["text-pass-raw", "text-clean-tokens"],
-        e2e=[],
+        e2e=["track"],
         trusted=["modelled, not verified: Go regexp engine on whole lines (tied by exhaustive small arrangements), go/parser+go/printer re-formatting, astutil import deletion, os file API"],
         assumptions=["A2: go/printer∘go/parser preserves syntax tree and comments", "A3: astutil.DeleteNamedImport only edits import declarations"],
     ),
@@ -32,5 +32,20 @@ PROPS = {
                  "canonicalisation in the harness: /track items inside a run of equal sort keys are put in ascending id order (sort.Slice is unstable); runtime panic texts mapped to {div0, oob i len}"],
         assumptions=["A7: sync/atomic, net/http, encoding/json behave as documented; a Track call with race:true is a single atomic read-modify-write (theorem atomic_interleave is about interleavings of such steps; without race only sequential callers are in scope)",
                      "Values as goat builds them: TrackIds = 1..N in order, component ids = positions, component names pairwise distinct, component ids within 1..N (anything else does not compile)"],
+    ),
+    "C05": dict(lean=["GoatSpec.Properties.C05"], streams=["ids"], e2e=["track"],
+                trusted=["modelled, not verified: regexp.QuoteMeta replacement of the placeholder (utils.Replace), text/template rendering of the generated package, go/parser ImportsOnly; directory names are abstract identifiers in the closure model"],
+                assumptions=["the generated file's const block is `TRACK_ID_START = iota` followed by the ids in list order (checked end to end by parsing the generated file)"]),
+    "C13": dict(lean=["GoatSpec.Properties.C13"], streams=["paths"], e2e=["track-decoys"],
+                trusted=["modelled, not verified: filepath.Walk order and SkipDir semantics, os.Stat for nested go.mod detection, go-git tree diff paths; path strings are split into segments by the harness"],
+                assumptions=["paths are slash-separated relative paths as produced by filepath.Walk(\".\") and go-git"]),
+    "C16": dict(
+        lean=["GoatSpec.Properties.C16"],
+        streams=["config-init", "config-load"],
+        e2e=[],
+        trusted=["modelled, not verified: gopkg.in/yaml.v3 on the emitted shapes (line-level loader, tied on every generated file - A9), text/template execution of the parsed segment table, "
+                 "cobra flag parsing, go-git revision resolution (a parameter of the model: the harness asks the git CLI and adds go-git's hash-prefix rule), os file API",
+                 "abstractions: Go's nil slice and the empty slice are both [] (goat init and the emitted YAML never produce an empty non-nil slice); strconv.Quote is modelled on printable text plus newline, tab, carriage return"],
+        assumptions=["A9: yaml.v3 agrees with the line-level loader on the emitted shapes (monitored: real LoadConfig vs model load on every generated and mutated file)"],
     ),
 }
